@@ -170,7 +170,7 @@ impl Prop for C10 {
         struct H;
         impl StepHandler for H {
             fn on_send(&mut self, world: &mut World, before: &ModelState, i: usize, s: &SendStep, o: &SendObs, stats: &mut Stats, out: &mut Vec<Finding>) {
-                let mut pred = super::predict_seen(world, before, s, o, Reading::Condition);
+                let mut pred = super::predict_seen_allow(world, before, s, o, Reading::Condition, A_ALL & !A_QEND);
                 if !pred.structural {
                     return;
                 }
